@@ -301,6 +301,9 @@ namespace detail
 	{
 		GLM_STATIC_ASSERT(std::numeric_limits<T>::is_integer, "'bitfieldExtract' only accept integer inputs");
 
+		// "If bits is zero, the result will be zero" -- Offset may then equal the width, which is no valid shift count
+		if(Bits <= 0)
+			return vec<L, T, Q>(0);
 		vec<L, T, Q> const Result((Value >> static_cast<T>(Offset)) & static_cast<T>(detail::mask(static_cast<T>(Bits))));
 		return detail::compute_bitfieldExtract_signed<L, T, Q, std::numeric_limits<T>::is_signed>::call(Result, Bits);
 	}
@@ -319,8 +322,13 @@ namespace detail
 	{
 		GLM_STATIC_ASSERT(std::numeric_limits<T>::is_integer, "'bitfieldInsert' only accept integer values");
 
-		T const Mask = detail::mask(static_cast<T>(Bits)) << Offset;
-		return (Base & ~Mask) | ((Insert << static_cast<T>(Offset)) & Mask);
+		// A zero-width field leaves Base unchanged (Offset may then equal the width, which is no valid shift count);
+		// the field is assembled in the unsigned type: shifting a negative Insert or a signed mask left is undefined
+		typedef typename detail::make_unsigned<T>::type U;
+		if(Bits <= 0)
+			return Base;
+		U const Mask = static_cast<U>(static_cast<U>(detail::mask(static_cast<T>(Bits))) << Offset);
+		return vec<L, T, Q>((vec<L, U, Q>(Base) & static_cast<U>(~Mask)) | ((vec<L, U, Q>(Insert) << static_cast<U>(Offset)) & Mask));
 	}
 
 #if GLM_COMPILER & GLM_COMPILER_VC
